@@ -380,3 +380,47 @@ def disturb_encoder(rnd, k=2):
         except Exception:
             continue
         call(frame.marshal, obj, ch)
+
+
+_DEFINED = None
+
+
+def defined_functions():
+    """'file.py:Qual.name' of every function the tree under test defines
+    (read from its source).  Gates that name a function of the pinned tree
+    apply only while that function exists: after a refactor that renames or
+    inlines it the gate is skipped (and says so) instead of turning a run on
+    a correct tree into 'inconclusive'."""
+    global _DEFINED
+    if _DEFINED is None:
+        import ast
+        import os
+        from .. import env
+        out = set()
+        d = os.path.join(env.REPO, 'pamqp')
+        for fn in sorted(os.listdir(d)):
+            if not fn.endswith('.py'):
+                continue
+            try:
+                with open(os.path.join(d, fn), encoding='utf-8') as f:
+                    tree = ast.parse(f.read())
+            except (OSError, SyntaxError, ValueError):
+                continue
+
+            def walk(node, prefix):
+                for n in ast.iter_child_nodes(node):
+                    if isinstance(n, (ast.FunctionDef,
+                                      ast.AsyncFunctionDef)):
+                        out.add('%s:%s%s' % (fn, prefix, n.name))
+                        walk(n, prefix + n.name + '.<locals>.')
+                    elif isinstance(n, ast.ClassDef):
+                        walk(n, prefix + n.name + '.')
+            walk(tree, '')
+        _DEFINED = out
+    return _DEFINED
+
+
+def anchored(names):
+    """The subset of `names` ('file.py:qualname') that the tree defines."""
+    have = defined_functions()
+    return [n for n in names if n in have]
